@@ -221,6 +221,29 @@ impl Prop for C03 {
                 v.push(Case { conv, contradiction: None, abandoned_row: true });
             }
         }
+        // "commands that expect no reply produce no bytes", however much they carry in total: long
+        // data accumulating on one parameter beyond the 64 MiB the server advertises as
+        // max_allowed_packet (each chunk far below it), then the execution and a ping
+        {
+            let mut cmds = vec![Cmd::Prepare { text: Blob::text("p") }];
+            let nchunks = match tier {
+                Tier::Quick => 5,
+                Tier::Thorough => 9,
+            };
+            for i in 0..nchunks {
+                cmds.push(Cmd::LongData { id: 1, param: 0, data: Blob::Pat { seed: 90 + i, len: (14 << 20) + i as usize } });
+                if i == 2 {
+                    cmds.push(Cmd::Ping);
+                }
+            }
+            cmds.push(Cmd::Execute { id: 1, params: vec![Param { coltype: T_BLOB, unsigned: false, value: PVal::LongData }], send_types: true, flags: 0, iterations: 1 });
+            cmds.push(Cmd::Ping);
+            let conv = Conversation::new(
+                cmds,
+                vec![Action::Prepare(PrepProg::Reply { id: 1, params: vec![ColSpec::simple("p0", T_BLOB, 0)], cols: vec![] }), Action::Result(Program::completed(1, 0))],
+            );
+            v.push(Case { conv, contradiction: None, abandoned_row: false });
+        }
         // responses whose unit and row counts cross 2^8 and 2^16: chains of 255-257 and 65535-65537
         // resultsets / completions, resultsets of 65535-65537 rows
         let counts: &[usize] = match tier {
